@@ -350,7 +350,9 @@ func (b *builder) cursorOp(c *chanModel, name string, seq uint64) bool {
 	if err := c.store.StoreCommittedDispatchCursor(name, seq); err != nil {
 		return b.fail("StoreCommittedDispatchCursor %s %s=%d: %v", c.Key, name, seq, err)
 	}
-	c.Cursors[name] = seq
+	if cur, ok := c.Cursors[name]; !ok || cur < seq { // the store keeps cursors monotonic
+		c.Cursors[name] = seq
+	}
 	b.r.Logf("src %s cursor %s=%d", c.Key, name, seq)
 	return true
 }
